@@ -14,6 +14,24 @@ RULE = ("Layer 1: squareroot() on every x with |x-k^2|<=2 plus 10^7 random x (qu
         "checked; distinct = scenario digest (layers 1-2 counted exactly by the C harness).")
 ASSUMPTIONS = ["the virtual clock is frozen between quiescent points (time() = base + driver-controlled offset); message birth is read from mtime(info/<n>) like the daemon does"]
 TAGS = ("C15",)
+CTL = {"me": "me.example\n", "locals": "loc.example\n"}
+
+
+def fx(msgs, scripts, tape, actions, ctl=None):
+    return {"controls": dict(CTL, **(ctl or {})), "limits": [120, 120], "messages": msgs, "scripts": scripts, "bscript": "", "texts": ["ok"],
+            "tape": tape, "actions": actions, "mode": {"kind": "none"}}
+
+
+# histories that every run executes: ALRM with idle retry-waiting messages on both channels, TERM between Z and retry, expiry
+FIXED = [
+    fx([{"sender": "s@rem.example", "rcpts": ["joe@loc.example", "r@rem.example"], "body": "x\n"}], {"0:0": "ZK", "0:1": "ZK"},
+       [0, 0, 0, 0, 0, 0, 2, 0], ["answer", "inject", "advance", "alrm"]),
+    fx([{"sender": "s@rem.example", "rcpts": ["joe@loc.example"], "body": "x\n"}, {"sender": "t@rem.example", "rcpts": ["r@rem.example"], "body": "y\n"}],
+       {"0:0": "ZZK", "1:0": "ZK"}, [0, 0, 0, 0, 0, 0, 0, 0, 4, 0], ["answer", "inject", "advance", "alrm", "term"]),
+    fx([{"sender": "s@rem.example", "rcpts": ["joe@loc.example", "ann@loc.example"], "body": "x\n"}], {"0:0": "ZZZ", "0:1": "ZZZZ"},
+       [], ["answer", "inject", "advance"], {"queuelifetime": "60\n"}),
+    fx([{"sender": "s@rem.example", "rcpts": ["r@rem.example"], "body": "x\n"}], {"0:0": "ZZ"}, [], ["answer", "inject", "advance"], {"queuelifetime": "0\n"}),
+]
 
 
 def run(ctx):
@@ -26,7 +44,7 @@ def run(ctx):
     else:
         ctx.stats.cls("arith_layer_missing")
     if ctx.only is None or "daemon" in ctx.only:
-        q.search(ctx, "C15", TAGS, 100, 1500)
+        q.search(ctx, "C15", TAGS, 100, 1500, fixed=FIXED)
 
 
 def replay(ctx, path):
